@@ -753,7 +753,7 @@ def _c03_params() -> List[Obl]:
 
 
 def _c05_peek() -> List[Obl]:
-    out = []
+    out = _verus_reader_bits("C05", ["peek_bits", "refill"], lemmas=False)
     for el, E in ENDIANS:
         for w in RWORDS:
             out.append(Obl(id=f"c05.peek_width.{E}.{w}", prop="C05", engine="kani", target=f"obl_params::c05_peek_width_{el}_{w}",
